@@ -300,9 +300,9 @@ Qed.
 Lemma facts_ok_inv F : facts_ok F = true ->
   sniff_chain_ok F = true /\ ext_chain_ok F = true /\ cont_chain_ok F = true /\ containers_vs_codecs_ok F = true
   /\ adapters_ok F = true /\ f_writer_passthrough F = true /\ f_path_fallback_sniffs F = true
-  /\ f_stdin_fallback_sniffs F = true /\ f_private_codec_state F = true.
+  /\ f_stdin_fallback_sniffs F = true /\ f_private_codec_state F = true /\ header_ok F = true /\ flag_deps_ok F = true.
 Proof.
-  unfold facts_ok. intros H. do 8 (apply andb_prop in H; destruct H as [H ?H]). repeat split; assumption.
+  unfold facts_ok. intros H. do 10 (apply andb_prop in H; destruct H as [H ?H]). repeat split; assumption.
 Qed.
 
 Lemma sniff_chain_ok_inv F : sniff_chain_ok F = true ->
@@ -446,6 +446,35 @@ Proof.
   unfold containers_vs_codecs_ok, real_codecs in Hv. cbn [forallb] in Hv.
   repeat match goal with H : _ && _ = true |- _ => apply andb_prop in H; destruct H end.
   destruct c; try congruence; apply incomparable_app; assumption.
+Qed.
+
+(* ---------- RecordStreamReader.readheader (second stage of the stream decision) ---------- *)
+
+Lemma header_exact d :
+  stream_header_ok F d = ends_with (f_rs_magic F) (firstn (List.length (f_header_frame F)) d).
+Proof.
+  destruct (facts_ok_inv F HF) as (_ & _ & _ & _ & _ & _ & _ & _ & _ & Hh & _). unfold header_ok in Hh.
+  apply andb_prop in Hh. destruct Hh as [H1 H2]. apply Nat.eqb_eq in H1.
+  unfold stream_header_ok. rewrite H1. destruct (f_header_test F) as [m|m]; [|discriminate].
+  apply beqb_eq in H2. subst m. reflexivity.
+Qed.
+
+Lemma header_frame_accepted rest : stream_header_ok F (f_header_frame F ++ rest) = true.
+Proof.
+  rewrite header_exact, firstn_length_app. destruct cont_shape as (_ & Hrs & _). exact Hrs.
+Qed.
+
+(* content at least one header long is accepted exactly when it is <6 arbitrary bytes> ++ magic ++ rest *)
+Lemma header_framed d : List.length (f_header_frame F) <= List.length d ->
+  (stream_header_ok F d = true <->
+   exists pre rest, List.length pre + List.length (f_rs_magic F) = List.length (f_header_frame F) /\ d = pre ++ f_rs_magic F ++ rest).
+Proof.
+  intros Hl. rewrite header_exact. split.
+  - intros H. apply ends_with_spec in H. destruct H as [l Hl2].
+    exists l, (skipn (List.length (f_header_frame F)) d). split.
+    + rewrite <- app_length, <- Hl2. apply firstn_length_le. exact Hl.
+    + rewrite app_assoc, <- Hl2. symmetry. apply firstn_skipn.
+  - intros (pre & rest & Hn & ->). rewrite app_assoc, <- Hn, <- app_length, firstn_length_app. apply ends_with_app.
 Qed.
 
 End Sniffing.
